@@ -83,3 +83,37 @@ func TestDebug(t *testing.T) {
 	v, vac := p.Eval(c)
 	fmt.Printf("violation=%+v vacuous=%v\n", v, vac)
 }
+
+// TestDetDump is the determinism self-test's worker: it evaluates the cases
+// named in SIM_DET ("PROP:from:to,...") and prints one digest line per property
+// that covers every simulated run (event log, exit status, stdout, stderr).
+func TestDetDump(t *testing.T) {
+	theT = t
+	spec := os.Getenv("SIM_DET")
+	if spec == "" {
+		t.Skip()
+	}
+	for _, part := range strings.Split(spec, ",") {
+		var prop string
+		var from, to int
+		fmt.Sscanf(strings.ReplaceAll(part, ":", " "), "%s %d %d", &prop, &from, &to)
+		p := registry[prop]
+		if p == nil {
+			t.Fatalf("unknown property %s", prop)
+		}
+		Ctr = NewCounters()
+		nv := 0
+		for i := from; i < to; i++ {
+			r := simrt.NewRand(caseSeed(99, prop, i))
+			c := p.Gen(r, i, "quick")
+			if c == nil || c.Sub == "race" {
+				continue
+			}
+			c.Prop, c.Seed, c.Index = prop, 99, i
+			if v, _ := p.Eval(c); v != nil {
+				nv++
+			}
+		}
+		fmt.Printf("DET %s cases=%d-%d runs=%d steps=%d violations=%d digest=%016x\n", prop, from, to, Ctr.Runs, Ctr.Steps, nv, Ctr.Digest)
+	}
+}
